@@ -5,9 +5,9 @@ package verifflow
 import "github.com/conduitio/conduit/pkg/verifkit"
 
 type scn struct {
-	p      flowParams
-	quick  int // deviation bound in the quick tier
-	thor   int // deviation bound in the thorough tier
+	p     flowParams
+	quick int // deviation bound in the quick tier
+	thor  int // deviation bound in the thorough tier
 }
 
 func (s scn) bound() int {
@@ -155,7 +155,6 @@ func scenariosFor(prop string) []scn {
 	}
 	return out
 }
-
 
 // preemptScenariosFor lists the scenarios of the preemptive tier (bound = deviations explored around each preemption).
 func preemptScenariosFor(prop string) []scn {
